@@ -58,6 +58,10 @@ def names_in(c, out=None):
                     return out
             names_in(c[1], out)
             return out
+        if c and c[0] == 'tuple' and len(c) == 2 and isinstance(c[1], tuple):
+            for x in c[1]:          # ('tuple', (a, b, ..)): every component (the argument tuple of a closure call)
+                names_in(x, out)
+            return out
         for x in c[1:]:
             names_in(x, out)
     return out
